@@ -85,14 +85,14 @@ impl Monitor for C12 {
             }
             // exhaustive short shapes: left factor x right factor x suffix x left context
             let lefts: Vec<&str> = match ev {
-                Ev::I64 => vec!["2", "(3)", "abs(4)", "3!", "(3)!", "min(2,5)"],
+                Ev::I64 => vec!["2", "(3)", "abs(4)", "3!", "(3)!", "min(2,5)", "avg()", "avg(4)"],
                 Ev::Cpx => vec!["2", "(3)", "abs(4)", "2i", "i", "(1+i)", "sqrt(4)"],
-                _ => vec!["2", "(3)", "abs(4)", "3!", "⌊2.5⌋", "⌈2.5⌉", "1.5", "min(2,5)", "(3)!"],
+                _ => vec!["2", "(3)", "abs(4)", "3!", "⌊2.5⌋", "⌈2.5⌉", "1.5", "min(2,5)", "(3)!", "avg()", "avg(4)", "sqrt(4)", "med(1)"],
             };
             let rights: Vec<&str> = match ev {
-                Ev::I64 => vec!["(3)", "abs(5)", "max(1,4)", "(2+1)"],
+                Ev::I64 => vec!["(3)", "abs(5)", "max(1,4)", "(2+1)", "avg()"],
                 Ev::Cpx => vec!["(3)", "abs(5)", "(1-i)", "sqrt(9)"],
-                _ => vec!["(3)", "⌊3.5⌋", "⌈3.5⌉", "abs(5)", "sqrt(16)", "(1.5+1)"],
+                _ => vec!["(3)", "⌊3.5⌋", "⌈3.5⌉", "abs(5)", "sqrt(16)", "(1.5+1)", "avg()"],
             };
             let numrights = ["3", "1.5"];
             let sufs: Vec<&str> = if ev == Ev::Cpx { vec!["", "^2", "²"] } else { vec!["", "^2", "²", "!", "^2!", "!^2"] };
